@@ -5,6 +5,7 @@ import (
 	"encoding/base64"
 	"encoding/json"
 	"fmt"
+	"math"
 	"math/big"
 	"sort"
 	"strconv"
@@ -200,6 +201,24 @@ func (v Val) Go() interface{} {
 		return big.NewInt(v.I)
 	case "timestruct":
 		return StructWithTime{At: time.Unix(v.I, 0).UTC(), Name: v.S}
+	// values that have no JSON form at all
+	case "nan":
+		return math.NaN()
+	case "+inf":
+		return math.Inf(1)
+	case "-inf":
+		return math.Inf(-1)
+	case "f32nan":
+		return float32(math.NaN())
+	case "*nan":
+		f := math.NaN()
+		return &f
+	case "chan":
+		return make(chan int)
+	case "func":
+		return func() {}
+	case "complex":
+		return complex(1, 2)
 	}
 	panic("sim.Val: unknown tag " + v.T)
 }
@@ -344,6 +363,26 @@ func (v Val) IsNullLike() bool {
 	switch v.T {
 	case "nil", "nilptr", "nilslice", "nilmap":
 		return true
+	}
+	return false
+}
+
+// Unencodable tells whether the value, or a value nested in it, has no JSON form at all (NaN, an
+// infinity, a channel, a function, a complex number): encoding/json refuses it.
+func (v Val) Unencodable() bool {
+	switch v.T {
+	case "nan", "+inf", "-inf", "f32nan", "*nan", "chan", "func", "complex":
+		return true
+	}
+	for _, kv := range v.M {
+		if kv.V.Unencodable() {
+			return true
+		}
+	}
+	for _, e := range v.L {
+		if e.Unencodable() {
+			return true
+		}
 	}
 	return false
 }
